@@ -265,8 +265,21 @@ func keysOf(m map[uint64][4]int) []uint64 {
 // (all paths are compared with the predictions of the specification; every judgeEvery-th
 // recorded execution is returned for the judge)
 func replayTxFile(r *core.Run, cfg string, walLimit uint, judgeEvery int) []*core.Trace {
-	gen, err := core.RunTLC(r.Scratch, core.TLCOpts{Module: "TxReplay", Config: cfg, Workers: 4, Timeout: 30 * time.Minute, HeapMB: 8192})
-	if err != nil || !gen.OK {
+	return replayTxFileOpts(r, core.TLCOpts{Module: "TxReplay", Config: cfg, Workers: 4, Timeout: 30 * time.Minute, HeapMB: 8192}, walLimit, judgeEvery)
+}
+
+// replayTxFileSim replays random walks of TxReplay.tla (tlc -simulate) with larger bounds: deeper
+// histories than the exhaustive configurations reach, still with the specification's predictions.
+func replayTxFileSim(r *core.Run, cfg string, walLimit uint, num, depth int, judgeEvery int) []*core.Trace {
+	return replayTxFileOpts(r, core.TLCOpts{Module: "TxReplay", Config: cfg, Workers: 1, Timeout: 30 * time.Minute, HeapMB: 4096,
+		Simulate: fmt.Sprintf("num=%d", num), Depth: depth, Seed: r.Seed + 11}, walLimit, judgeEvery)
+}
+
+func replayTxFileOpts(r *core.Run, o core.TLCOpts, walLimit uint, judgeEvery int) []*core.Trace {
+	cfg := o.Config
+	gen, err := core.RunTLC(r.Scratch, o)
+	simOK := o.Simulate != "" && gen != nil && strings.Contains(gen.Output, "traces generated") && !strings.Contains(gen.Output, "Error:")
+	if err != nil || !(gen.OK || simOK) {
 		r.Break("TxReplay generator failed: %v %s", err, tail(gen))
 		return nil
 	}
@@ -293,7 +306,7 @@ func replayTxFile(r *core.Run, cfg string, walLimit uint, judgeEvery int) []*cor
 		go func(i int, p string) {
 			defer wg.Done()
 			defer func() { <-sem }()
-			traces[i], mms[i] = replayTxPath(fmt.Sprintf("txreplay-%d", i), p, walLimit)
+			traces[i], mms[i] = replayTxPath(fmt.Sprintf("txreplay-%s-%d", strings.TrimSuffix(strings.TrimPrefix(cfg, "TxReplay_"), ".cfg"), i), p, walLimit)
 		}(i, p)
 	}
 	wg.Wait()
